@@ -181,7 +181,7 @@ func (runInfo *runInfoStruct) invokeMapExpr(expr *ast.MapExpr) {
 			if runInfo.err != nil {
 				return
 			}
-			key = runInfo.rv
+			key = detach(runInfo.rv)
 			if !isHashable(key) {
 				runInfo.err = newStringError(expr, "type "+hashableTypeString(key)+" cannot be used as map key")
 				runInfo.rv = nilValue
@@ -227,7 +227,7 @@ func (runInfo *runInfoStruct) invokeMapExpr(expr *ast.MapExpr) {
 		if runInfo.err != nil {
 			return
 		}
-		key, runInfo.err = convertReflectValueToType(runInfo.rv, keyType)
+		key, runInfo.err = convertReflectValueToType(detach(runInfo.rv), keyType)
 		if runInfo.err != nil {
 			runInfo.err = newStringError(expr, "cannot use type "+key.Type().String()+" as type "+keyType.String()+" as map key")
 			runInfo.rv = nilValue
@@ -411,7 +411,7 @@ func (runInfo *runInfoStruct) invokeItemExpr(expr *ast.ItemExpr) {
 	if runInfo.err != nil {
 		return
 	}
-	item := runInfo.rv
+	item := detach(runInfo.rv)
 
 	runInfo.expr = expr.Index
 	runInfo.invokeExpr()
@@ -458,7 +458,7 @@ func (runInfo *runInfoStruct) invokeSliceExpr(expr *ast.SliceExpr) {
 	if runInfo.err != nil {
 		return
 	}
-	item := runInfo.rv
+	item := detach(runInfo.rv)
 
 	if item.Kind() == reflect.Interface && !item.IsNil() {
 		item = item.Elem()
